@@ -24,6 +24,8 @@ METHODS = {
     "token": '''
     def next_token(self, context, token):
         LOG.append(("{pid}", "T", str(token)))
+        if {tokTrig!r} and {tokTrig!r} in str(token) and not context.in_fix_mode:
+            self.report_next_token_error(context, token)
 ''',
     "line": '''
     def next_line(self, context, line):
@@ -56,7 +58,8 @@ def write_probe(dirpath, sp):
     mod = f"vf_{sp['id'].lower()}_{key}"
     cls = "".join(x.capitalize() or "_" for x in mod.split("_"))
     cbs = [c for c in ("start", "token", "line", "done") if sp[c]]
-    methods = "".join(METHODS[c].format(pid=sp["id"], trig=sp["trig"], repl=sp["repl"], doneNl=bool(sp["doneNl"]), boom=sp.get("boom", "")) for c in cbs)
+    methods = "".join(METHODS[c].format(pid=sp["id"], trig=sp["trig"], repl=sp["repl"], doneNl=bool(sp["doneNl"]), boom=sp.get("boom", ""),
+                                        tokTrig=sp.get("tokTrig", "")) for c in cbs)
     src = TMPL.format(cls=cls, name="fixprobe-" + sp["id"].lower(), pid=sp["id"], fixes=bool(sp["fixes"]), level=int(sp["level"]), methods=methods)
     return implib.write(os.path.join(dirpath, mod + ".py"), src)
 
@@ -180,7 +183,7 @@ def model_fix(specs, doc):
     """Two-round protocol: first without token table to learn the intermediate documents (line fixes do not depend on
     tokens), then with the real token strings of every document that occurs."""
     ordered = sorted(specs, key=lambda s: s["id"].lower())
-    rules = ";".join(",".join([E.xs(sp["id"]), str(sp["level"]), flags(sp), E.xs(sp["trig"]), E.xs(sp["repl"])]) for sp in ordered)
+    rules = ";".join(",".join([E.xs(sp["id"]), str(sp["level"]), flags(sp), E.xs(sp["trig"]), E.xs(sp["repl"]), E.xs(sp.get("tokTrig", ""))]) for sp in ordered)
     drv = vlib.Driver("fixsched")
     docs_seen = [doc]
     # intermediate documents: replay passes by asking for the final content repeatedly is not enough; instead feed a table
@@ -295,8 +298,8 @@ def gen_fix_scenario(rng):
     for pid in rng.sample(["VPA001", "VPB002", "ZZZ999", "AAA000", "MDM500"], rng.randint(1, 3)):
         trig, repl = rng.choice(PAIRS)
         specs.append(dict(id=pid, level=rng.choice([0, 0, 1, 1, 2, 5]), fixes=rng.random() < .85, start=rng.random() < .5,
-                          token=rng.random() < .4, line=rng.random() < .85, done=rng.random() < .5, doneNl=rng.random() < .3,
-                          trig=trig, repl=repl))
+                          token=rng.random() < .5, line=rng.random() < .85, done=rng.random() < .5, doneNl=rng.random() < .3,
+                          trig=trig, repl=repl, tokTrig=rng.choice(["", "", "text", "para", "aa", "bb"])))
     k = rng.randint(0, 5)
     doc = "\n".join(rng.choice(WORDS) for _ in range(k)) + ("\n" if rng.random() < .6 and k else "")
     return specs, doc
@@ -337,6 +340,11 @@ def fix_correspondence(ctx, n, corpus=()):
 
 
 FIX_CORPUS = [
+    # three levels: a level-0 line fixer, a level-2 rule triggered only after that fix (line phase), a level-5 rule triggered by a
+    # token from the start (token phase): the scheduler must visit level 2 before level 5
+    ([dict(id="VPA001", level=0, fixes=True, start=False, token=False, line=True, done=False, doneNl=False, trig="aa", repl="bb"),
+      dict(id="VPB002", level=2, fixes=True, start=False, token=False, line=True, done=False, doneNl=False, trig="bb", repl="cc"),
+      dict(id="ZZZ999", level=5, fixes=True, start=False, token=True, line=True, done=False, doneNl=False, trig="qq", repl="rr", tokTrig="para")], "x aa y\nqq\n"),
     ([dict(id="VPA001", level=0, fixes=True, start=True, token=True, line=True, done=True, doneNl=False, trig="aa", repl="bb"),
       dict(id="ZZZ999", level=2, fixes=True, start=True, token=True, line=True, done=True, doneNl=False, trig="qq", repl="rr")], "x aa y\nqq\n"),
     ([dict(id="VPA001", level=0, fixes=True, start=False, token=False, line=True, done=False, doneNl=False, trig="aa", repl="bb"),
